@@ -38,15 +38,10 @@ def plainOf (m : MethodSpec) (args : Args) (p : Param) : List (String × List Ch
     if isPathParam m p.name then []
     else match getKV args p.name with
       | some (.scalar (.txt s)) => [(aliasOf m p.name, s)]
-      | some (.structV false _ t) => [(aliasOf m p.name, t)]
       | _ => []
   | .struct fs =>
     match getKV args p.name with
     | some (.struct false vals) => fs.filterMap (fieldBinding vals)
-    | _ => []
-  | .structElsewhere fs =>
-    match getKV args p.name with
-    | some (.structV false vals _) => fs.filterMap (fieldBinding vals)
     | _ => []
   | _ => []
 
@@ -83,7 +78,6 @@ theorem run_fields_absent (args : Args) (pn : String)
 
 /-- one parameter's statements, run on the arguments, set exactly what the property lists for it -/
 theorem run_paramOps (m : MethodSpec) (args : Args) (p : Param)
-    (hq : p.kind ≠ .qualOther) (he : isElsewhere p = false)
     (hn : isStructParam p = true → fieldsOf p ≠ [] → ∀ v, getKV args p.name ≠ some (.struct true v)) :
     runQueryOps args (specParamOps m p) = some (plainOf m args p) := by
   cases hk : p.kind with
@@ -97,7 +91,6 @@ theorem run_paramOps (m : MethodSpec) (args : Args) (p : Param)
       | some a =>
         cases a with
         | scalar v => cases v <;> rfl
-        | structV n v t => cases n <;> rfl
         | _ => rfl
   | struct fs =>
     simp only [specParamOps, plainOf, hk]
@@ -117,20 +110,28 @@ theorem run_paramOps (m : MethodSpec) (args : Args) (p : Param)
       | scalar v => exact run_fields_absent args p.name (by simp [ha]) (by simp [ha]) fs
       | dict v => exact run_fields_absent args p.name (by simp [ha]) (by simp [ha]) fs
       | ctx v => exact run_fields_absent args p.name (by simp [ha]) (by simp [ha]) fs
-      | structV n v t => exact run_fields_absent args p.name (by simp [ha]) (by simp [ha]) fs
-  | qualOther => exact absurd hk hq
-  | structElsewhere fs0 => simp [isElsewhere, hk] at he
+  | qualOther =>
+    simp only [specParamOps, plainOf, hk]
+    by_cases hp : isPathParam m p.name = true
+    · simp [hp, runQueryOps]
+    · simp only [hp, Bool.false_eq_true, ↓reduceIte, runQueryOps, evalExpr]
+      cases ha : getKV args p.name with
+      | none => rfl
+      | some a =>
+        cases a with
+        | scalar v => cases v <;> rfl
+        | _ => rfl
   | ctx => simp [specParamOps, plainOf, hk, runQueryOps]
   | dict => simp [specParamOps, plainOf, hk, runQueryOps]
   | unsupported => simp [specParamOps, plainOf, hk, runQueryOps]
 
 /-! ### dict, body, ctx slots of the cooked method -/
 
-def structLike (p : Param) : Bool := isStructParam p || isQualOther p
+def structLike (p : Param) : Bool := isStructParam p
 
 theorem handleParam_slots (verb : Verb) (pp : List String) (st st' : Cooked) (p : Param)
     (h : handleParam verb pp st p = .ok st') :
-    st'.dict = (if isDictParam p && !verb.hasBody then some p.name else st.dict) ∧
+    st'.dict = (if isDictParam p && !verb.hasBody then st.dict ++ [p.name] else st.dict) ∧
     st'.ctx = (if isCtxParam p then some p.name else st.ctx) ∧
     st'.body = (if structLike p then some p.name else st.body) ∧
     (structLike p = true → st.body = none) := by
@@ -150,14 +151,6 @@ theorem handleParam_slots (verb : Verb) (pp : List String) (st st' : Cooked) (p 
       simp only [hc, hm, decide_true, decide_false, hp, Bool.false_eq_true, ↓reduceIte, Except.ok.injEq] at h
       subst h
       simp [isDictParam, isCtxParam, structLike, isStructParam, isQualOther, hk]
-  | structElsewhere fs0 =>
-    simp only [hk] at h
-    by_cases hp : p.ptr = true <;> by_cases hm : p.name ∈ pp
-    all_goals
-      have hc : pp.contains p.name = decide (p.name ∈ pp) := by simp
-      simp only [hc, hm, decide_true, decide_false, hp, Bool.false_eq_true, ↓reduceIte, Except.ok.injEq] at h
-      subst h
-      simp [isDictParam, isCtxParam, structLike, isStructParam, isQualOther, hk]
   | struct fs =>
     simp only [hk, setBody] at h
     cases hb : st.body with
@@ -168,14 +161,13 @@ theorem handleParam_slots (verb : Verb) (pp : List String) (st st' : Cooked) (p 
         simp only [hp, Bool.false_eq_true, ↓reduceIte, Except.ok.injEq] at h <;> subst h <;>
         simp [isDictParam, isCtxParam, structLike, isStructParam, isQualOther, hk]
   | qualOther =>
-    simp only [hk, setBody] at h
-    cases hb : st.body with
-    | some b => simp [hb] at h
-    | none =>
-      simp only [hb] at h
-      by_cases hp : p.ptr = true <;>
-        simp only [hp, Bool.false_eq_true, ↓reduceIte, Except.ok.injEq] at h <;> subst h <;>
-        simp [isDictParam, isCtxParam, structLike, isStructParam, isQualOther, hk]
+    simp only [hk] at h
+    by_cases hp : p.ptr = true <;> by_cases hm : p.name ∈ pp
+    all_goals
+      have hc : pp.contains p.name = decide (p.name ∈ pp) := by simp
+      simp only [hc, hm, decide_true, decide_false, hp, Bool.false_eq_true, ↓reduceIte, Except.ok.injEq] at h
+      subst h
+      simp [isDictParam, isCtxParam, structLike, isStructParam, isQualOther, hk]
   | dict =>
     simp only [hk] at h
     by_cases hp : p.ptr = true <;> by_cases hv : verb.hasBody = true <;>
@@ -190,7 +182,7 @@ def lastNamed (q : Param → Bool) (dflt : Option String) : List Param → Optio
 
 theorem cookParams_slots (verb : Verb) (pp : List String) (ps : List Param) :
     ∀ (st c : Cooked), cookParams verb pp st ps = .ok c →
-      c.dict = lastNamed (fun p => isDictParam p && !verb.hasBody) st.dict ps ∧
+      c.dict = st.dict ++ ((ps.filter (fun p => isDictParam p && !verb.hasBody)).map (·.name)) ∧
       c.ctx = lastNamed isCtxParam st.ctx ps ∧
       c.body = lastNamed structLike st.body ps ∧
       (st.body = none → (ps.filter structLike).length ≤ 1) := by
@@ -208,7 +200,7 @@ theorem cookParams_slots (verb : Verb) (pp : List String) (ps : List Param) :
       simp only [h1] at h
       obtain ⟨d1, c1, b1, n1⟩ := handleParam_slots verb pp st st1 p h1
       obtain ⟨d2, c2, b2, n2⟩ := ih st1 c h
-      refine ⟨by rw [d2, d1]; rfl, by rw [c2, c1]; rfl, by rw [b2, b1]; rfl, ?_⟩
+      refine ⟨by rw [d2, d1]; by_cases hd : (isDictParam p && !verb.hasBody) = true <;> simp [List.filter_cons, hd], by rw [c2, c1]; rfl, by rw [b2, b1]; rfl, ?_⟩
       intro hb
       by_cases hs : structLike p = true
       · -- after p the body slot is taken: no further struct-like parameter can follow
@@ -289,48 +281,28 @@ theorem dictOf_not (args : Args) (p : Param) (h : isDictParam p = false) : dictO
   cases hk : p.kind <;> simp_all
 
 theorem dictOf_is (args : Args) (p : Param) (h : isDictParam p = true) :
-    dictOf args p = dictSets args (some p.name) := by
+    dictOf args p = dictOne args p.name := by
   unfold isDictParam at h
   cases hk : p.kind with
   | dict =>
-    unfold dictOf dictSets
+    unfold dictOf dictOne
     simp only [hk]
     cases getKV args p.name with
     | none => rfl
     | some a => cases a <;> rfl
   | _ => simp [hk] at h
 
-theorem dictBindings_none (args : Args) (ps : List Param) (h : ps.filter isDictParam = []) :
-    dictBindings args ps = [] := by
-  induction ps with
-  | nil => rfl
-  | cons r rs ih =>
-    rw [List.filter_cons] at h
-    by_cases hr : isDictParam r = true
-    · simp [hr] at h
-    · simp only [hr, Bool.false_eq_true, ↓reduceIte] at h
-      rw [dictBindings_cons, dictOf_not args r (by simpa using hr), ih h]; rfl
-
-/-- the name of the first parameter satisfying `q` -/
-def firstNamed (q : Param → Bool) (ps : List Param) : Option String := (ps.find? q).map (·.name)
-
-theorem dictBindings_le_one (args : Args) (ps : List Param) (h : (ps.filter isDictParam).length ≤ 1) :
-    dictBindings args ps = dictSets args (firstNamed isDictParam ps) := by
+/-- every map parameter is ranged over: the statements set exactly the entries of all map arguments -/
+theorem dictBindings_eq (args : Args) (ps : List Param) :
+    dictBindings args ps = dictSets args ((ps.filter isDictParam).map (·.name)) := by
   induction ps with
   | nil => rfl
   | cons p ps ih =>
-    rw [List.filter_cons] at h
+    rw [dictBindings_cons, ih, List.filter_cons]
     by_cases hq : isDictParam p = true
-    · simp only [hq, ↓reduceIte, List.length_cons] at h
-      have h0 : ps.filter isDictParam = [] := by
-        cases hf : ps.filter isDictParam with
-        | nil => rfl
-        | cons x xs => rw [hf] at h; simp at h
-      rw [dictBindings_cons, dictBindings_none args ps h0, dictOf_is args p hq]
-      simp [firstNamed, List.find?_cons, hq]
-    · simp only [hq, Bool.false_eq_true, ↓reduceIte] at h
-      rw [dictBindings_cons, dictOf_not args p (by simpa using hq), ih h]
-      simp [firstNamed, List.find?_cons, hq]
+    · simp [hq, dictOf_is args p hq, dictSets]
+    · simp only [hq, Bool.false_eq_true, ↓reduceIte]
+      rw [dictOf_not args p (by simpa using hq)]; rfl
 
 /-! ### placeholders: from the alias tables to the `strings.Replace` lines -/
 
@@ -415,10 +387,6 @@ theorem subs_eq (m : MethodSpec) (c : Cooked) (args : Args)
       simp only at e1
       rw [e1, String.toList_ofList]
 
-theorem substPath_eq (args : Args) (path : List Char) (subs : List PathSub) :
-    substPath args path subs = seqReplace path (subs.map (fun s => (s.key.toList, argText args s.param))) := by
-  simp [substPath, seqReplace, List.foldl_map]
-
 /-- everything the theorems need to know about a method, as propositions -/
 structure MethodOK (m : MethodSpec) : Prop where
   names : (m.params.map (·.name)).Nodup
@@ -431,15 +399,11 @@ structure MethodOK (m : MethodSpec) : Prop where
   phParam : ∀ n ∈ placeholders m.path, resolve m (String.ofList n) ∈ m.params.map (·.name)
   fields : ∀ p ∈ m.params, ((fieldsOf p).map (·.name)).Nodup
   fieldKeys : ∀ p ∈ m.params, ∀ f ∈ fieldsOf p, (fieldKey f).isEmpty = false
-  noQual : ∀ p ∈ m.params, p.kind ≠ .qualOther
-  noElsewhere : ∀ p ∈ m.params, isElsewhere p = false
-  oneDict : m.verb.hasBody = false → (m.params.filter isDictParam).length ≤ 1
 
-/-- the argument values a call may carry for the theorems to apply (¬F_nilStructDeref, ¬F_pathArgBrace) -/
+/-- the argument values a call may carry for the theorems to apply (¬F_nilStructDeref) -/
 structure ArgsOK (m : MethodSpec) (args : Args) : Prop where
   noNilStruct : m.verb.hasBody = false → ∀ p ∈ m.params, isStructParam p = true → fieldsOf p ≠ [] →
     ∀ v, getKV args p.name ≠ some (.struct true v)
-  noBrace : ∀ n ∈ placeholders m.path, noBrace (argText args (resolve m (String.ofList n)))
 
 /-- the cooked tables of a method whose directives parsed to what the user meant -/
 def CookedFor (m : MethodSpec) (c : Cooked) (d : PathDir) (subs : List PathSub) : Prop :=
@@ -464,18 +428,70 @@ theorem cookedFor_unpack (m : MethodSpec) (c : Cooked) (d : PathDir) (subs : Lis
     subst h1
     exact ⟨h2.symm, h3.symm, rfl⟩
 
-/-- the path handed to url.JoinPath -/
+/-- the path handed to url.JoinPath: every placeholder filled with its own argument's text, for
+    ARBITRARY argument texts (two or more placeholders: one simultaneous `NewReplacer`; one: a single `Replace`) -/
 theorem path_eq_spec (m : MethodSpec) (c : Cooked) (d : PathDir) (subs : List PathSub) (args : Args)
-    (ok : MethodOK m) (aok : ArgsOK m args) (h : CookedFor m c d subs) :
+    (ok : MethodOK m) (h : CookedFor m c d subs) :
     substPath args m.path subs = specPath m args := by
   obtain ⟨_, hs, hcook⟩ := cookedFor_unpack m c d subs h
   obtain ⟨_, ha, _⟩ := cookParams_closed _ _ _ _ _ hcook
-  rw [substPath_eq, hs, subs_eq m c args ok.aliasKeys ok.aliasVals ok.phOk ha, placeholders_eq]
-  have := seqReplace_fill (fun n => argText args (resolve m (String.ofList n))) (tokenize m.path) []
-    (by intro c hc; cases hc) ok.clean (by rw [← placeholders_eq]; exact aok.noBrace)
-  simp only [List.nil_append, renderToks_tokenize] at this
-  rw [this]
-  rfl
+  have hse := subs_eq m c args ok.aliasKeys ok.aliasVals ok.phOk ha
+  rw [← hs] at hse
+  let f : List Char → List Char := fun n => argText args (resolve m (String.ofList n))
+  have hpairs : subs.map (subPair args) = (placeholders m.path).map (fun n => ('{' :: (n ++ ['}']), f n)) := by
+    have := congrArg (List.map (fun (kv : List Char × List Char) => ('{' :: (kv.1 ++ ['}']), kv.2))) hse
+    simp only [List.map_map] at this
+    exact this
+  have hlen : subs.length = (placeholders m.path).length := by
+    have := congrArg List.length hpairs; simpa using this
+  have hspec : specPath m args = fill f (tokenize m.path) := rfl
+  rw [hspec]
+  unfold substPath
+  by_cases hgt : subs.length > 1
+  · simp only [hgt, ↓reduceIte, hpairs]
+    unfold replaceAll
+    have hP : PairsFor f ((placeholders m.path).map (fun n => ('{' :: (n ++ ['}']), f n))) := by
+      intro kv hkv
+      simp only [List.mem_map] at hkv
+      obtain ⟨n, hn, rfl⟩ := hkv
+      exact ⟨n, tokenize_wordy m.path n (by rw [← placeholders_eq]; exact hn), rfl⟩
+    have := replaceAllAux_fill f _ hP (tokenize m.path) ok.clean
+      (fun n hn => ⟨tokenize_wordy m.path n hn, List.mem_map.2 ⟨n, by rw [placeholders_eq]; exact hn, rfl⟩⟩)
+      (m.path.length + 1) (by rw [renderToks_tokenize]; exact Nat.le_refl _)
+    rw [renderToks_tokenize] at this
+    exact this
+  · simp only [hgt, ↓reduceIte]
+    cases hsub : subs with
+    | nil =>
+      have hph : phNames (tokenize m.path) = [] := by
+        rw [← placeholders_eq]
+        have : (placeholders m.path).length = 0 := by rw [← hlen, hsub]; rfl
+        exact List.length_eq_zero_iff.1 this
+      simp only [List.foldl_nil]
+      rw [fill_no_ph f _ hph, renderToks_tokenize]
+    | cons s0 rest =>
+      have hrest : rest = [] := by
+        rw [hsub] at hgt
+        simp only [List.length_cons, gt_iff_lt, Nat.lt_add_left_iff_pos, Nat.not_lt, Nat.le_zero_eq] at hgt
+        exact List.length_eq_zero_iff.1 hgt
+      subst hrest
+      rw [hsub] at hpairs
+      cases hpl : placeholders m.path with
+      | nil => rw [hpl] at hpairs; simp at hpairs
+      | cons n ns =>
+        rw [hpl] at hpairs
+        simp only [List.map_cons, List.map_nil, List.cons.injEq] at hpairs
+        obtain ⟨h1, h2⟩ := hpairs
+        have hns : ns = [] := by
+          cases ns with
+          | nil => rfl
+          | cons x xs => simp at h2
+        subst hns
+        simp only [List.foldl_cons, List.foldl_nil, h1]
+        have := replaceFirst_single f n (tokenize m.path) [] (by intro c hc; cases hc) ok.clean
+          (by rw [← placeholders_eq]; exact hpl)
+        simp only [List.nil_append, renderToks_tokenize] at this
+        exact this
 
 /-- the query of a GET/DELETE call -/
 theorem query_eq_spec (m : MethodSpec) (c : Cooked) (d : PathDir) (subs : List PathSub) (args : Args)
@@ -484,16 +500,15 @@ theorem query_eq_spec (m : MethodSpec) (c : Cooked) (d : PathDir) (subs : List P
     dictSets args c.dict = dictBindings args m.params := by
   obtain ⟨_, _, hcook⟩ := cookedFor_unpack m c d subs h
   constructor
-  · rw [queryOps_eq m c ok.names ok.fields ok.fieldKeys ok.aliasKeys ok.aliasVals ok.noElsewhere hcook, plainBindings_eq]
+  · rw [queryOps_eq m c ok.names ok.fields ok.fieldKeys ok.aliasKeys ok.aliasVals hcook, plainBindings_eq]
     apply runQueryOps_flatMap
     intro p hp
-    exact run_paramOps m args p (ok.noQual p hp) (ok.noElsewhere p hp) (aok.noNilStruct hv p hp)
+    exact run_paramOps m args p (aok.noNilStruct hv p hp)
   · obtain ⟨hd, _, _, _⟩ := cookParams_slots _ _ _ _ _ hcook
-    rw [hd, dictBindings_le_one args m.params (ok.oneDict hv)]
     have e : (fun p => isDictParam p && !m.verb.hasBody) = isDictParam := by
       funext p; simp [hv]
-    rw [e, lastNamed_le_one isDictParam _ m.params (ok.oneDict hv)]
-    simp [firstNamed]
+    rw [hd, dictBindings_eq, e]
+    rfl
 
 theorem find?_congr_mem {β : Type} (l : List β) (q q' : β → Bool) (h : ∀ a ∈ l, q a = q' a) :
     l.find? q = l.find? q' := by
@@ -518,16 +533,9 @@ theorem slots_eq_spec (m : MethodSpec) (c : Cooked) (d : PathDir) (subs : List P
     | true =>
       simp only [↓reduceIte]
       rw [hb, lastNamed_le_one structLike _ m.params (hone rfl)]
-      have : m.params.find? structLike = m.params.find? isStructAny := by
-        apply find?_congr_mem
-        intro p hp
-        have := ok.noQual p hp
-        have he := ok.noElsewhere p hp
-        unfold structLike isStructAny isQualOther
-        rw [he]
-        cases hk : p.kind <;> simp_all
+      have : m.params.find? structLike = m.params.find? isStructParam := rfl
       rw [this]
-      cases m.params.find? isStructAny <;> rfl
+      cases m.params.find? isStructParam <;> rfl
   · rw [hc, lastNamed_le_one isCtxParam _ m.params ok.oneCtx]
     unfold specCtx
     cases m.params.find? isCtxParam with
@@ -549,7 +557,7 @@ theorem send_eq_spec (hs : List (String × String)) (m : MethodSpec)
       r.verb = m.verb.upper ∧ r.path = specPath m args ∧ r.query.getD [] = specQuery m args ∧
       r.body = specBody m ∧ r.headers = headersFor hs m.verb ∧ r.ctx = specCtx m args := by
   obtain ⟨hd, _, _⟩ := cookedFor_unpack m c d subs h
-  have hpath := path_eq_spec m c d subs args ok aok h
+  have hpath := path_eq_spec m c d subs args ok h
   obtain ⟨hbody, hctx⟩ := slots_eq_spec m c d subs args ok h
   subst hd
   unfold send planOf
@@ -564,10 +572,10 @@ theorem send_eq_spec (hs : List (String × String)) (m : MethodSpec)
     obtain ⟨hq, hdict⟩ := query_eq_spec m c _ subs args ok aok h hv
     simp only [Bool.false_or, Bool.false_eq_true, ↓reduceIte]
     have hb' : (none : Option String) = specBody m := by rw [← hbody, hv]; rfl
-    by_cases he : ((queryOpsOf c).isEmpty && c.dict.isNone) = true
+    by_cases he : ((queryOpsOf c).isEmpty && c.dict.isEmpty) = true
     · simp only [he, ↓reduceIte]
       refine ⟨_, rfl, rfl, hpath, ?_, hb', rfl, hctx⟩
-      simp only [Bool.and_eq_true, List.isEmpty_iff, Option.isNone_iff_eq_none] at he
+      simp only [Bool.and_eq_true, List.isEmpty_iff] at he
       rw [he.1] at hq
       rw [he.2] at hdict
       simp only [runQueryOps, Option.some.injEq] at hq
@@ -578,16 +586,8 @@ theorem send_eq_spec (hs : List (String × String)) (m : MethodSpec)
 
 /-! ### the region predicate -/
 
-theorem noBrace_of_contains (s : List Char) (h : s.contains '{' = false) : noBrace s := by
-  intro c hc e
-  subst e
-  have : s.contains '{' = true := by simpa using hc
-  rw [h] at this; cases this
-
 theorem region_wf (i : IfaceSpec) (calls : List Call) (h : region i calls = "WF") :
-    structOk i = true ∧ F_ptrDict i = false ∧
-    F_twoDicts i = false ∧ F_qualScalar i = false ∧ F_structElsewhere i = false ∧ F_headerValue i = false ∧ F_nilStructDeref i calls = false ∧
-    F_pathArgBrace i calls = false := by
+    structOk i = true ∧ F_ptrDict i = false ∧ F_nilStructDeref i calls = false := by
   unfold region at h
   cases h0 : shapeOk i <;> simp only [h0, Bool.not_false, Bool.not_true, Bool.false_eq_true, ↓reduceIte] at h
   · exact absurd h (by decide)
@@ -596,18 +596,8 @@ theorem region_wf (i : IfaceSpec) (calls : List Call) (h : region i calls = "WF"
   have hso : structOk i = true := by simp [structOk, h0, h00]
   cases h3 : F_ptrDict i <;> simp only [h3, Bool.false_eq_true, ↓reduceIte] at h
   case true => exact absurd h (by decide)
-  cases h4 : F_twoDicts i <;> simp only [h4, Bool.false_eq_true, ↓reduceIte] at h
-  case true => exact absurd h (by decide)
-  cases h5 : F_qualScalar i <;> simp only [h5, Bool.false_eq_true, ↓reduceIte] at h
-  case true => exact absurd h (by decide)
-  cases h5b : F_structElsewhere i <;> simp only [h5b, Bool.false_eq_true, ↓reduceIte] at h
-  case true => exact absurd h (by decide)
-  cases h5c : F_headerValue i <;> simp only [h5c, Bool.false_eq_true, ↓reduceIte] at h
-  case true => exact absurd h (by decide)
   cases h6 : F_nilStructDeref i calls <;> simp only [h6, Bool.false_eq_true, ↓reduceIte] at h
   case true => exact absurd h (by decide)
-  cases h7 : F_pathArgBrace i calls <;> simp only [h7, Bool.false_eq_true, ↓reduceIte] at h
-  case true => exact absurd h (by decide)
-  exact ⟨hso, rfl, rfl, rfl, rfl, rfl, rfl, rfl⟩
+  exact ⟨hso, rfl, rfl⟩
 
 end ShootVerif.Rest
